@@ -38,10 +38,29 @@ def directed_histories(rng, n, labels, quad=False, constrained=True, length=7, k
     for _ in range(n):
         ops = []
         kd = {1: kinds[0], 2: kinds[1]}            # copies change the class of a slot
-        for _ in range(length):
+        # half of the histories contain a sandwich  conversion ; <one edit or renumbering> ; the same conversion
+        # (anything a conversion remembers must be forgotten by every kind of edit)
+        sandwich_at = rng.randint(2, 4) if (constrained and rng.random() < 0.5) else -1
+        for step_ in range(length):
             f = rng.choice(fams)
             s_ = rng.choice([1, 2])
             o_ = 3 - s_
+            if step_ == sandwich_at:
+                red_ = rng.random() < 0.7
+                ops.append(["toenum", s_, red_])
+                mid = rng.choice(["setmap", "setmap", "setitem", "augadd", "refresh", "update", "iadd", "addcons"])
+                if mid == "setmap":
+                    ops.append(["setmap", s_, rng.choice(["rev", "rot"])])
+                elif mid in ("setitem", "augadd"):
+                    ops.append([mid, s_, [rng.choice(labels) for _ in range(rng.choice([1, 2, 3]))], rng.choice([1, -1])])
+                elif mid == "refresh":
+                    ops.append(["refresh", s_])
+                elif mid in ("update", "iadd"):
+                    ops.append([mid, s_, o_, []])
+                elif kd[s_] in ("PCBO", "PCSO"):
+                    ops.append(["addcons", s_, rng.choice(labels), rng.randint(0, 5)])
+                ops.append(["toenum", s_, red_])
+                continue
             if f == "addcons" and kd[s_] not in ("PCBO", "PCSO"):
                 f = "setitem"
             key = [rng.choice(labels) for _ in range(rng.choice([1, 1, 2, 2, 3] if not quad else [1, 2, 2]))]
@@ -72,7 +91,7 @@ def directed_histories(rng, n, labels, quad=False, constrained=True, length=7, k
 MC_INVS = ["UpperBounds", "MappingBijection", "StoredCanonical", "AncCovers"]
 MC_PROPS = ["RefreshExact", "AncNeverReused"]
 TRACE_INVS = ["TermsMatch", "KindMatch", "ImplNoRaise", "ImplUpperBounds", "ImplMappingBijection", "ImplStoredCanonical",
-              "ImplRefreshExact", "ImplAncCovers", "ImplAncFresh", "ImplUnchangedOthers", "ImplEnumLabels", "NotStuck", "Drift"]
+              "ImplRefreshExact", "ImplAncCovers", "ImplAncFresh", "ImplUnchangedOthers", "ImplEnumLabels", "ImplNoAlias", "NotStuck", "Drift"]
 
 
 def tla_set(xs):
